@@ -70,6 +70,28 @@ def shared_location_sites(F, fn):
     return out
 
 
+def _default_hasher(ty):
+    """a std HashMap / HashSet type written without its hasher parameter (the type printer elides the default, RandomState)"""
+    for head, n_with_default in (("std::collections::HashMap<", 2), ("std::collections::HashSet<", 1)):
+        i = ty.find(head)
+        while i >= 0:
+            j = i + len(head)
+            depth, commas = 1, 0
+            while j < len(ty) and depth:
+                c = ty[j]
+                if c in "<([":
+                    depth += 1
+                elif c in ">)]":
+                    depth -= 1
+                elif c == "," and depth == 1:
+                    commas += 1
+                j += 1
+            if depth == 0 and commas + 1 == n_with_default:
+                return True
+            i = ty.find(head, j)
+    return False
+
+
 def run(ctx):
     ctx.level = "proof"
     ctx.explanation = ("static, for every schedule: bodies reachable from FlopExhaustiveEvaluator::{new,scope,into_iter} and "
@@ -154,7 +176,7 @@ def run(ctx):
     for p in sorted(M.reach):
         fn = F.fns[p]
         for l in fn.locals:
-            if "RandomState" in l["ty"]:
+            if "RandomState" in l["ty"] or _default_hasher(l["ty"]):
                 bad += 1
                 ctx.violation(rule, f"{p}|random-state", f"{p} uses {l['ty']}: iteration order differs between instances",
                               fn=p, file=fn.file, line=fn.line)
